@@ -227,3 +227,25 @@ Fixpoint ruids (n : rnode) : list ukey :=
   | RTools uid _ _ calls => uid :: map (fun c : rcall => fst (fst (fst (fst c)))) calls
   end.
 Definition rstages_uids (stages : list (list rnode)) : list ukey := flat_map (flat_map ruids) stages.
+
+(* ------------------------------------------------------------------ every run with call options of its own *)
+
+(* The handlers are given with the call: the run that resumes an interrupted run is served the
+   options of ITS call, not those of the interrupted one (nothing about handlers is kept in the
+   checkpoint).  [os k] = the call options of the k-th run of the sequence. *)
+Fixpoint plan_seqf (fuel k : nat) (os : nat -> list copt) (stages : list (list rnode))
+  : list (list copt * list (list rnode)) :=
+  match fuel with
+  | O => []
+  | S f =>
+      (os k, stages) ::
+      (let lo := live_opts stages (os k) in
+       if is_intr (run_outcome lo stages) then plan_seqf f (S k) os (resume_stages lo stages) else [])
+  end.
+
+Definition run_seqf (fuel : nat) (os : nat -> list copt) (stages : list (list rnode))
+  : list (list copt * list (list gnode)) :=
+  map (fun op => run_of (fst op) (snd op)) (plan_seqf fuel 0 os stages).
+
+(* the first run called with o1, the resuming ones with o2 *)
+Definition two_opts (o1 o2 : list copt) (k : nat) : list copt := match k with O => o1 | S _ => o2 end.
